@@ -94,7 +94,9 @@ def main(tier):
     scen = []
     for _ in range(6 if chk.tier == "quick" else 60):
         base = rng.choice([["OP_2", "OP_3", "OP_ADD"], ["OP_1"], ["OP_5", "OP_DUP", "OP_TOALTSTACK"], ["OP_1", "OP_IF", "OP_7", "OP_ENDIF"], []])
-        ops = rng.choice([["4", "OP_ADD"], ["OP_DUP", "OP_TOALTSTACK"], ["OP_DEPTH"], ["9", "OP_SWAP", "OP_DROP"], ["OP_FROMALTSTACK"], ["2", "3", "OP_ADD"]])
+        # (operation lists that cannot fail whatever the base script left behind: after a FAILED step a script session goes on with the next
+        #  operation - known finding F37 - while exec stops, so failing lists are not comparable this way)
+        ops = rng.choice([["2", "3", "OP_ADD"], ["5", "OP_DUP", "OP_TOALTSTACK"], ["OP_DEPTH"], ["9", "8", "OP_SWAP", "OP_DROP"], ["1", "OP_IF", "7", "OP_ENDIF"], ["6", "OP_TOALTSTACK", "OP_FROMALTSTACK"]])
         scen.append((base, ops))
     def run(sc):
         base, ops = sc
